@@ -2300,11 +2300,12 @@ def emit_glue(results, path, worlds):
          '// model*/unk* describe what the Lean driver prints (formatting of the correspondence lines), nothing else.',
          '#pragma once', '#include <string>', '#include <cstring>', '#include "N2kMessages.h"', '#include "N2kMaretron.h"', '#include "NMEA2000.h"',
          'namespace lg {',
-         'struct Val { long long i; double d; std::string s; Val() : i(0), d(0) {} };',
+         '// cap: size the caller passes for a text buffer (input of the parser); overrun / unterminated: what the glue saw behind it',
+         'struct Val { long long i; double d; std::string s; int cap; bool overrun, unterminated; Val() : i(0), d(0), cap(300), overrun(false), unterminated(false) {} };',
          'enum Kind { K_UINT, K_SINT, K_ENUM, K_BOOL, K_SCALED, K_UNION, K_TEXT };',
          'struct Field { const char *name; Kind kind; int typeBits; int pTypeBits; int W; bool inSetter, inParser;',
          '  int sW; bool sSigned; double sRes; int pW; bool pSigned; double pRes;',
-         '  const long long *enumerators; int nEnum; int textKind; int textLen; long long naAlias; };',
+         '  const long long *enumerators; int nEnum; int textKind; int textLen; long long naAlias; bool sizedBuf; };',
          '// how the Lean driver prints a `set` / `parse` line for the setter path `cond` / the messages matching `guard`',
          'struct Variant { const char *id; bool (*cond)(const Val *); const int *guard; const int *modelOut;',
          '  bool modelSetter, modelParser; int modelPrefixBytes; const int *unkBytes; int nUnk; };',
@@ -2372,7 +2373,7 @@ def emit_glue(results, path, worlds):
             else:
                 problems.append('setter parameter %s of type %s' % (nm, q))
         # ---- parser call
-        par_decl, par_args, par_back = [], [], []
+        par_decl, par_args, par_back, sized, cap_decl = [], [], [], set(), []
         for prm in (P.params if P else []):
             if prm['role'] == 'msg':
                 par_args.append('m')
@@ -2428,18 +2429,22 @@ def emit_glue(results, path, worlds):
                     problems.append('text buffer %s has no setter counterpart' % nm)
                     continue
                 i = idx[c]
-                par_decl.append('  char b%d[300]; memset(b%d, 0x5a, sizeof b%d); b%d[299]=0;' % (i, i, i, i))
+                # the caller's buffer has v[i].cap bytes; everything behind it is a guard that must stay untouched
+                cap_decl.append('  size_t cap%d = (v[%d].cap < 0 || v[%d].cap > 600) ? 300 : (size_t)v[%d].cap;' % (i, i, i, i))
+                par_decl.append('  char b%d[640]; memset(b%d, 0x5a, sizeof b%d);' % (i, i, i))
                 par_args.append('b%d' % i)
-                par_back.append('  v[%d].s = std::string(b%d, strnlen(b%d, sizeof b%d));' % (i, i, i, i))
+                par_back.append('  v[%d].s = cap%d ? std::string(b%d, strnlen(b%d, cap%d)) : std::string(); v[%d].unterminated = cap%d && strnlen(b%d, cap%d) == cap%d; '
+                                'v[%d].overrun = false; for (size_t k_ = cap%d; k_ < sizeof b%d; k_++) if (b%d[k_] != 0x5a) v[%d].overrun = true;' % (i, i, i, i, i, i, i, i, i, i, i, i, i, i, i))
+                sized.add(nm)
                 continue
             msz = re.fullmatch(r'(\w+?)(BufSize|MaxSize|Size)', nm)
             if msz and canon(msz.group(1)) is not None and ('char *' in [pp.get('qual', '').strip() for pp in P.params if pp.get('name') == msz.group(1)]):
                 i = idx[canon(msz.group(1))]
                 if q0.endswith('&'):
-                    par_decl.append('  %s z%d = 300;' % (ctype(q0), i))
+                    par_decl.append('  %s z%d = (%s)cap%d;' % (ctype(q0), i, ctype(q0), i))
                     par_args.append('z%d' % i)
                 else:
-                    par_args.append('(%s)300' % q0)
+                    par_args.append('(%s)cap%d' % (q0, i))
                 continue
             problems.append('parser argument %s of type %s' % (nm, q))
         if problems:
@@ -2477,18 +2482,18 @@ def emit_glue(results, path, worlds):
                     p_ = (r_['w'], r_['signed'], Decimal(r_['text']))
                 if tx is None and sf and sf.get('kind') == 'text':
                     tx = (sf.get('textkind', 'str'), sf['bits'] // 8)
-            flines.append('  {"%s", %s, %d, %d, %d, %s, %s, %d, %s, %s, %d, %s, %s, %s, %d, %d, %d, %dLL}' % (
+            flines.append('  {"%s", %s, %d, %d, %d, %s, %s, %d, %s, %s, %d, %s, %s, %s, %d, %d, %d, %dLL, %s}' % (
                 nm, kind, tb, ptb, R['widths'][i], 'true' if f.get('in_setter') and sf else 'false', 'true' if (pf or ptext) else 'false',
                 s_[0] if s_ else 0, 'true' if (s_ and s_[1]) else 'false', cdec(s_[2]) if s_ else '0.0',
                 p_[0] if p_ else 0, 'true' if (p_ and p_[1]) else 'false', cdec(p_[2]) if p_ else '0.0',
                 ('en_%s_%d' % (cid, i)) if en else 'nullptr', len(en) if en else 0,
                 {'str': 1, 'ais': 2, 'var': 3}.get(tx[0], 0) if tx else 0, (tx[1] or 0) if tx else 0,
-                R.get('remaps', {}).get(nm, (0, -1))[1]))
+                R.get('remaps', {}).get(nm, (0, -1))[1], 'true' if any(x.lower() == nm.lower() for x in sized) else 'false'))
         H.append('static const Field f_%s[] = {\n%s\n};' % (cid, ',\n'.join(flines)))
         H.append('static void set_%s(tN2kMsg &m, const Val *v) {\n%s\n  %s(%s);\n}' % (cid, '\n'.join(set_lines), R['setter_name'], ', '.join(set_args)))
         if P:
             H.append('static bool parse_%s(const tN2kMsg &m, Val *v) {\n%s\n  bool r = %s(%s);\n%s\n  return r;\n}' % (
-                cid, '\n'.join(par_decl), R['parser_name'], ', '.join(par_args), '\n'.join(par_back)))
+                cid, '\n'.join(cap_decl + par_decl), R['parser_name'], ', '.join(par_args), '\n'.join(par_back)))
         vrows = []
         variants = [V for V in results if V.get('variant_of') == R['id']] + [R]     # the pair itself is the fallback
         for V in variants:
